@@ -262,6 +262,40 @@ def opLock (j : Json) : R Json := do
   return Json.mkObj [("trace", Json.arr trace), ("final", Json.arr ((pids.map fun p => Json.str (encPC (k.procs p).pc)).toArray)),
     ("name", match k.name with | some i => Json.num i | none => Json.null)]
 
+open Sched in
+/-- {"n":..,"m":..,"files":[..],"events":[["start",i]|["spawn",i,a]|["acquire",i,j]|["finish",i,j,again]|["done",i]]}
+    -> index of the first rejected event (or null), max inflight, max active, final? -/
+def opSched (j : Json) : R Json := do
+  let n ← fNat j "n"
+  let m ← fNat j "m"
+  let files ← (← fArr j "files").mapM (·.getNat?)
+  let evs ← (← fArr j "events").mapM fun e => do
+    let a ← e.getArr?
+    match a.toList with
+    | [Json.str "start", i] => pure (Ev.start (← i.getNat?))
+    | [Json.str "spawn", i, att] => pure (Ev.spawn (← i.getNat?) (← att.getNat?))
+    | [Json.str "acquire", i, jj] => pure (Ev.acquire (← i.getNat?) (← jj.getNat?))
+    | [Json.str "finish", i, jj, ag] => pure (Ev.finish (← i.getNat?) (← jj.getNat?) (← ag.getBool?))
+    | [Json.str "done", i] => pure (Ev.repoDone (← i.getNat?))
+    | _ => throw "bad event"
+  let mut s := initial n m files
+  let mut rejected : Option Nat := none
+  let mut maxInfl := 0
+  let mut maxAct := 0
+  let mut idx := 0
+  for e in evs do
+    match step s e with
+    | some s' =>
+      s := s'
+      maxInfl := max maxInfl (inflight s)
+      maxAct := max maxAct (active s)
+    | none =>
+      if rejected.isNone then rejected := some idx
+    idx := idx + 1
+  return Json.mkObj [("rejected", match rejected with | some i => Json.num i | none => Json.null),
+    ("max_inflight", Json.num maxInfl), ("max_active", Json.num maxAct), ("final", Json.bool (final s)),
+    ("measure0", Json.num (measure (initial n m files)))]
+
 def dispatch (j : Json) : R Json := do
   let op ← fStr j "op"
   match op with
@@ -275,6 +309,7 @@ def dispatch (j : Json) : R Json := do
   | "netrc" => opNetrc j
   | "clean" => opClean j
   | "lock" => opLock j
+  | "sched" => opSched j
   | "quote" => opQuote j
   | "validate" => opValidate j
   | "metadata_files" => opMetadataFiles j
